@@ -2,7 +2,7 @@ CHECK = {
         "obligations": ["C14.gen_goroutines_own_values", "C14.gen_stream_read_empty", "C14.c14_stream_short_partial", "C14.c14_stream_short_witness", "C14.c14_stream_zero_keeps", "C14.gen_return", "C14.c14_exactly_once", "C14.c14_inv", "C14.c14_fifo_whole", "C14.c14_short", "C14.c14_drain", "C14.c14_oversize", "C14.c14_oversize_cloak",
                         "C14.c14_isolation", "C14.sess_sim",
                         "E2EDg.c14_end_to_end", "E2EDg.c14_end_to_end_isolation", "E2EDg.wire_sim", "E2EDg.isEnc_exists", "E2EDg.sender_one_frame", "E2EDg.undecodable_dropped",
-                        "C14D.gen_deadline", "C14D.gen_timed_out", "C14D.no_deadline_is_plain", "C14D.timeout_keeps", "C14D.c14_deadline_fifo", "C14D.c14_timeout_sound", "C14D.c14_timeout_complete", "C14D.c14_returns_by_deadline", "C14D.c14_parked_means_empty",
+                        "C14D.gen_deadline", "C14D.gen_write_stores", "C14D.gen_timed_out", "C14D.no_deadline_is_plain", "C14D.timeout_keeps", "C14D.c14_deadline_fifo", "C14D.c14_timeout_sound", "C14D.c14_timeout_complete", "C14D.c14_returns_by_deadline", "C14D.c14_parked_means_empty",
                         "E2EDg.c14_end_to_end_bytes", "E2EDg.c14_end_to_end_bytes_isolation", "E2EDg.c14_one_conn_order", "E2EDg.labelled",
                         "C14.gen_eof", "C14.gen_has", "C14.gen_short", "C14.gen_closing", "C14.gen_fits", "C14.gen_loop", "C14.gen_max",
                         "C14.gen_max_cloak", "C14.gen_structure", "C14.write_eq", "C14.read_eq", "DgDemux.isolation",
@@ -10,9 +10,10 @@ CHECK = {
                         "C14.gen_entry", "C14.gen_readfrom", "C14.gen_readfrom_refuses", "C14.gen_readfrom_room",
                         "C14.c14_entry_pinned_witness", "C14.c14_entry_pinned_truncates", "C14.c14_readfrom_pinned_witness"],
         "lean_module": "CloakModel.Props.C14All",
-        "scenarios": ["C14", "C14dl"],
+        "scenarios": ["C14", "C14dl", "C14backlog"],
         "reset_ops": ["dg.new", "dg.snew", "pdl.new"],
-        "rule": "(d) read deadlines (scenario C14dl): seeded scripts on the real datagramBufferedPipe inside a synctest bubble: writes (data/empty/closing), reads that return, time out or park and are woken by a write / close / new deadline / the pipe's timer, deadlines set / moved / cleared / already expired, time passing across and exactly up to the deadline; every answer, every woken read and the queue compared with Model/PipeDeadline.lean; at the end the deadline is cleared and everything outstanding must come out whole and in order. "
+        "rule": "(e) lagging reader (scenario C14backlog): unordered session pairs, one stream receiving 90 x 16132 B / 300 x 4000 B / 2500 x 600 B (thorough: 1200 x 16132 B, 40000 x 300 B) while nobody reads, then drained: every datagram Stream.Write accepted must come out whole and in order. "
+                "(d) read deadlines (scenario C14dl): seeded scripts on the real datagramBufferedPipe inside a synctest bubble: writes (data/empty/closing), reads that return, time out or park and are woken by a write / close / new deadline / the pipe's timer, deadlines set / moved / cleared / already expired, time passing across and exactly up to the deadline; every answer, every woken read and the queue compared with Model/PipeDeadline.lean; at the end the deadline is cleared and everything outstanding must come out whole and in order. "
                 "(c) entry points from a UDP socket: Stream.ReadFrom on unordered streams fed by a packet-oriented source (one Read = one datagram, "
                 "excess discarded; sizes 1..max-1, max, max+1, max+2, max+300, 40000, 65507 + seeded, four methods, limit default/16401) and by a byte source; "
                 "the REAL client.RouteUDP bound to 127.0.0.1:0 (loopback UDP, real time, 4 s deadline + one retry; non-arrival is not a violation) with datagrams of "
